@@ -25,23 +25,65 @@ TraceReset ==
     /\ fetch' = [st |-> "idle", out |-> NoOutcome]
     /\ nfetch' = 0
     /\ call' = [i \in Calls |-> IdleCall]
+    /\ known' = (IF "known" \in DOMAIN Line THEN SeqToSet(Line.known) ELSE Ours) /\ nrefresh' = 0
     /\ memo' = [k \in MemoKeys |-> NoMemo]
 
 TraceFetchStart == IsEvent("FetchStart") /\ FetchStart
 TraceSource == IsEvent("Source") /\ FetchAnswer([t |-> Line.out, doc |-> Line.doc])
 TraceFetchReturn == IsEvent("FetchReturn") /\ FetchReturn
-TraceCallStart == IsEvent("CallStart") /\ CallStart(Line.i, Line.v, Line.acct)
+KindOf(ln) == IF "kind" \in DOMAIN ln THEN ln.kind ELSE "direct"
+TraceCallStart == IsEvent("CallStart") /\ CallStart(Line.i, KindOf(Line), Line.v, Line.acct)
+\* the account manager finished a refresh; it now holds these accounts (read from the manager itself)
+TraceAcctRefresh == IsEvent("AcctRefresh") /\ known' = SeqToSet(Line.known) /\ nrefresh' = nrefresh + 1
+                    /\ SeqToSet(Line.known) \subseteq Ours /\ UNCHANGED <<force, fetch, nfetch, call, memo>>
+\* the account manager answered the entry point's lookup (logged by the wrapper around the real manager at the
+\* moment it answered): the answer must be what the manager's state allows
+TraceCallLookup == IsEvent("CallLookup") /\ CallLookup(Line.i, Line.out)
 
+\* What an entry point lets the outside see of the settings it used:
+\*   direct, check   the whole ProposerConfig            auction, bid   what the bid strategy was handed (with no relay
+\*   prep            the fee recipient sent to the nodes                 the strategy is not asked: relays only)
+\*   reg             per relay the fee recipient and gas limit of the registration it received
+RelayProj(k, r) == IF k = "reg" THEN [addr |-> r.addr, fr |-> r.fr, gl |-> r.gl] ELSE r
+Proj(k, r) ==
+    CASE k = "prep" -> [fr |-> r.fr]
+      [] k = "reg" -> [relays |-> {RelayProj(k, x) : x \in r.relays}]
+      [] k \in {"auction", "bid"} /\ r.relays = {} -> [relays |-> {}]
+      [] OTHER -> r
+Logged(k, res) ==
+    CASE k = "prep" -> [fr |-> res.fr]
+      [] k = "reg" -> [relays |-> SeqToSet(res.relays)]
+      [] k \in {"auction", "bid"} /\ res.relays = <<>> -> [relays |-> {}]
+      [] OTHER -> [fr |-> res.fr, relays |-> SeqToSet(res.relays)]
+
+\* the entry point returned having USED settings (ok) ...
 TraceCallReturn ==
     /\ IsEvent("CallReturn")
     /\ Line.ok
     /\ Cardinality(SeqToSet(Line.res.relays)) = Len(Line.res.relays)
-    /\ CallReturn(Line.i, [fr |-> Line.res.fr, relays |-> SeqToSet(Line.res.relays)])
+    /\ LET c == call[Line.i] IN
+       \E r \in Settings(c.snap, c.v, c.acct) :
+           /\ Proj(c.kind, r) = Logged(c.kind, Line.res)
+           /\ CallReturn(Line.i, r)
+\* ... or having given up: only CallLookup ends a call that way, so the line merely has to agree with the state
+TraceCallGaveUp ==
+    /\ IsEvent("CallReturn")
+    /\ ~Line.ok /\ "gaveup" \in DOMAIN Line /\ Line.gaveup
+    /\ call[Line.i].st = "done" /\ ~call[Line.i].used
+    /\ UNCHANGED vars
 
-TraceSilent == l <= TraceLen /\ (FetchInstall \/ \E i \in Calls : CallRead(i)) /\ UNCHANGED l
+\* (the immediate bid's account lookup is also placed by TLC when the code under test makes none: whatever the
+\* account manager would have answered at that moment)
+TraceSilent ==
+    /\ l <= TraceLen
+    /\ \/ FetchInstall \/ FetchSkip
+       \/ \E i \in Calls : CallRead(i)
+       \/ \E i \in Calls, out \in {"found", "notfound"} : call[i].kind = "bid" /\ CallLookup(i, out)
+    /\ UNCHANGED l
 
 TraceNext ==
     \/ TraceReset \/ TraceFetchStart \/ TraceSource \/ TraceFetchReturn \/ TraceCallStart \/ TraceCallReturn
+    \/ TraceAcctRefresh \/ TraceCallLookup \/ TraceCallGaveUp
     \/ TraceSilent
 
 TraceSpec == TraceInit /\ [][TraceNext]_tvars
